@@ -102,4 +102,52 @@ theorem stripL_idem (p : Char → Bool) (l : List Char) : stripL p (stripL p l) 
   unfold stripL
   rw [lstripL_id p m hh, rstripL_id p m hl]
 
+/-! ### padding: stripped characters added at the two ends change nothing -/
+
+theorem lstripL_append_left (p : Char → Bool) (pre l : List Char) (h : ∀ c ∈ pre, p c = true) :
+    lstripL p (pre ++ l) = lstripL p l := by
+  induction pre with
+  | nil => rfl
+  | cons c t ih =>
+    have hc : p c = true := h c (List.mem_cons_self ..)
+    simp only [List.cons_append, lstripL, hc, if_true]
+    exact ih (fun d hd => h d (List.mem_cons_of_mem _ hd))
+
+theorem lstripL_all (p : Char → Bool) (l : List Char) (h : ∀ c ∈ l, p c = true) : lstripL p l = [] := by
+  have := lstripL_append_left p l [] h
+  simpa [lstripL] using this
+
+theorem rstripL_append_right (p : Char → Bool) (l suf : List Char) (h : ∀ c ∈ suf, p c = true) :
+    rstripL p (l ++ suf) = rstripL p l := by
+  unfold rstripL
+  rw [List.reverse_append, lstripL_append_left p suf.reverse l.reverse (fun c hc => h c (List.mem_reverse.mp hc))]
+
+theorem strip_append_right (p : Char → Bool) (l suf : List Char) (h : ∀ c ∈ suf, p c = true) :
+    rstripL p (lstripL p (l ++ suf)) = rstripL p (lstripL p l) := by
+  induction l with
+  | nil =>
+    simp only [List.nil_append, lstripL_all p suf h, lstripL]
+  | cons c t ih =>
+    by_cases hc : p c = true
+    · simp only [List.cons_append, lstripL, hc, if_true]
+      exact ih
+    · simp only [List.cons_append, lstripL, hc]
+      simpa using rstripL_append_right p (c :: t) suf h
+
+/-- `strip` of a padded text is `strip` of the text -/
+theorem stripL_pad (p : Char → Bool) (pre l suf : List Char) (h1 : ∀ c ∈ pre, p c = true) (h2 : ∀ c ∈ suf, p c = true) :
+    stripL p (pre ++ l ++ suf) = stripL p l := by
+  unfold stripL
+  rw [List.append_assoc, lstripL_append_left p pre _ h1]
+  exact strip_append_right p l suf h2
+
+theorem strip_idem (s : String) : strip (strip s) = strip s := by
+  simp only [strip, String.toList_ofList]
+  rw [stripL_idem]
+
+theorem strip_pad (pre suf : List Char) (s : String) (h1 : ∀ c ∈ pre, isSpace c = true) (h2 : ∀ c ∈ suf, isSpace c = true) :
+    strip (String.ofList (pre ++ s.toList ++ suf)) = strip s := by
+  simp only [strip, String.toList_ofList]
+  rw [stripL_pad isSpace pre s.toList suf h1 h2]
+
 end Dippy.Py
